@@ -15,6 +15,7 @@ from fractions import Fraction as Fr
 import vlib
 from vlib import Rng, fhex, unhex
 import c03_coupling
+import c03_search
 
 PID = "C03"
 NAMESPACE = "Simu.C03"
@@ -428,13 +429,19 @@ def run(ctx):
     proof = vlib.prove(PID, THEOREMS, NAMESPACE, extra_targets=("drv_c03",))
     for f in proof["failures"]:
         V.fail_tie("proof", "%s: %s" % (f["theorem"], f["reason"]), errors=proof["errors"][:5])
-    if tier == "thorough" and proof["ok"]:
-        for mod in ("SimuVerif.Properties.C03Base", "SimuVerif.Properties.C03Coupling"):
+    # the contact SEARCH (as modelled bit-exactly in Model/Tissue.lean / TissueR.lean) hands a SearchOK / NoStale table to the two loops
+    proofS = c03_search.prove_search()
+    proofSI = c03_search.prove_search_invariants()
+    for pr in (proofS, proofSI):
+        for f in pr["failures"]:
+            V.fail_tie("proof", "%s: %s" % (f["theorem"], f["reason"]), errors=pr["errors"][:5])
+    if tier == "thorough" and proof["ok"] and proofS["ok"]:
+        for mod in ("SimuVerif.Properties.C03Base", "SimuVerif.Properties.C03Coupling", "SimuVerif.Properties.C03Search"):
             ok, log = vlib.leanchecker(mod)
             if not ok:
                 V.fail_tie("proof", "leanchecker rejected %s" % mod, log=log)
     n = 250 if tier == "quick" else 4000
-    if not proof["ok"]:
+    if not (proof["ok"] and proofS["ok"] and proofSI["ok"]):
         n = max(n, 600)           # a proof broke: widen the search for a concrete failing input
     drv = vlib.driver_path("drv_c03")
     if not os.path.exists(drv):
@@ -519,14 +526,15 @@ def run(ctx):
     pipeline_stage(V, tier, seed, stats)
     rcode, nviol = V.finish()
     cov = {
-        "obligations": proof["obligations"], "discharged": proof["discharged"],
+        "obligations": proof["obligations"] + proofS["obligations"] + proofSI["obligations"],
+        "discharged": proof["discharged"] + proofS["discharged"] + proofSI["discharged"],
         "checker_cmd": "lake build SimuVerif.Properties.C03 SimuVerif.Audit.C03 drv_c03 (+ lake env leanchecker in the thorough tier)",
         "trusted_base": vlib.TRUSTED_COMMON + [
             "hand-written loop/branch skeleton of Model/Integrator.lean (tied by the correspondence run only)",
             "hook H1 (configuration override at the end of global_configuration.hpp)",
             "hand-written model of the two tail loops of resolve_all_contacts (Model/CouplingPass.lean), tied by the correspondence run only"],
-        "theorems": {k: v for k, v in proof["axioms"].items()},
-        "proof_failures": proof["failures"],
+        "theorems": dict(list(proof["axioms"].items()) + list(proofS["axioms"].items()) + list(proofSI["axioms"].items())),
+        "proof_failures": proof["failures"] + proofS["failures"] + proofSI["failures"],
         "translator": gen,
         "configurations_built": compiled,
         "evaluations": stats["cases"], "distinct_nontrivial": len(distinct),
@@ -554,7 +562,7 @@ def run(ctx):
         "the sequential order of the loops is modelled; populations with only mutual couplings are also run with 2 and 4 threads",
         "kinetic-energy accumulators are not part of the property",
         "coupling pass: cell/node local ids are list positions (C08; cell::set_local_ids); unused node slots carry no coupling (node::reset); "
-        "the contact SEARCH is not modelled: SearchOK summarises what it hands to the two loops (checked on real runs by the pipeline stage)",
+        "the contact SEARCH is the one modelled bit-exactly in Model/Tissue.lean / TissueR.lean (C14 correspondence): SearchOK / NoStale / definedness of the pass are PROVED for its table (Properties/C03Search.lean: search_searchOK, searchOK_any_schedule for every interleaving of the locked writes, contactRun_mutual, tissue_pair_integrated_once) and are also checked on real runs by the pipeline stage",
     ], time.time() - t0, nviol)
     return rcode
 
